@@ -69,6 +69,7 @@ fn campaign(args: &[String]) -> i32 {
     let to: u64 = arg(args, "--to").map(|s| s.parse().unwrap()).unwrap_or(100);
     let out = arg(args, "--out");
     let progress = arg(args, "--progress");
+    let offset: u64 = arg(args, "--offset").map(|s| s.parse().unwrap()).unwrap_or(0);
     let budget_s: f64 = arg(args, "--budget-s").map(|s| s.parse().unwrap()).unwrap_or(1e9);
     let max_viol: usize = arg(args, "--max-violations").map(|s| s.parse().unwrap()).unwrap_or(3);
     let mut bs = batches(&check);
@@ -87,11 +88,13 @@ fn campaign(args: &[String]) -> i32 {
     let mut res = CampaignResult { check: check.clone(), seed, from, to, ..Default::default() };
     let mut obs_xor = 0u64;
     let mut ids_xor = 0u64;
+    let mut viol_f = arg(args, "--viol-file").map(|p| std::fs::OpenOptions::new().create(true).append(true).open(p).unwrap());
     let mut prog_f = progress.as_ref().map(|p| std::fs::OpenOptions::new().create(true).append(true).open(p).unwrap());
     let ro = RunOpts::default();
-    for run in from..to {
+    for run0 in from..to {
+        let run = run0 + offset;
         if t0.elapsed().as_secs_f64() > budget_s {
-            res.to = run;
+            res.to = run0;
             break;
         }
         let b = batch_for_run(&bs, run);
@@ -121,7 +124,7 @@ fn campaign(args: &[String]) -> i32 {
             res.samples.push(serde_json::json!({"run": run, "batch": b.name, "program": p}));
         }
         if let Some(v) = relevant(&check, &r.violations) {
-            res.violations.push(Replay {
+            let rp = Replay {
                 engine: "E1".into(),
                 check: check.clone(),
                 seed,
@@ -130,9 +133,16 @@ fn campaign(args: &[String]) -> i32 {
                 features: features(),
                 program: p.clone(),
                 violation: v.clone(),
-            });
+            };
+            if let Some(f) = viol_f.as_mut() {
+                // a later crash of this process (e.g. heap corruption caused by this very
+                // defect) must not lose the finding
+                let _ = writeln!(f, "{}", serde_json::to_string(&rp).unwrap());
+                let _ = f.flush();
+            }
+            res.violations.push(rp);
             if res.violations.len() >= max_viol {
-                res.to = run + 1;
+                res.to = run0 + 1;
                 break;
             }
         } else if let Some(v) = r.violations.first() {
